@@ -197,6 +197,7 @@ def dependence_nodes(cond, fn_hir):
         elif k == "Loop" and n.get("src") == "ForLoop":
             pass
     seen_ids, nodes, todo = set(), [], [cond]
+    seen_helpers = set()
     while todo:
         e = todo.pop()
         for n, _ in hir.walk(e):
@@ -206,6 +207,12 @@ def dependence_nodes(cond, fn_hir):
                 if lid not in seen_ids:
                     seen_ids.add(lid)
                     todo.extend(defs.get(lid, []))
+            if n.get("k") in ("Call", "MethodCall"):
+                c = hir.callee_of(n)
+                if c in hir.HELPER_HIR and c not in seen_helpers:
+                    # a helper that could not be expanded in place: its result depends on everything its body computes
+                    seen_helpers.add(c)
+                    todo.append(hir.HELPER_HIR[c]["body"])
     return nodes
 
 
